@@ -236,7 +236,8 @@ Definition agree (i : input) (o : output) : bool :=
 Definition wf (i : input) : bool :=
   match i with
   | J d _ => d <=? U64_MAX
-  | S _ _ _ delays _ => forallb (fun d => d <=? U64_MAX) delays
+  | S _ _ _ delays script =>
+      forallb (fun d => d <=? U64_MAX) delays && forallb (fun e => negb (is_panic (snd e))) script
   end.
 
 Definition calls_ok (ds calls : list N) : bool :=
